@@ -4,6 +4,7 @@ import (
 	"bytes"
 	"encoding/json"
 	"fmt"
+	"hash/crc32"
 	"io/ioutil"
 	"os"
 	"path/filepath"
@@ -487,6 +488,11 @@ func CheckC15(env *core.Env, rep *core.Report) *core.Result {
 				[]byte("import: [\".\"]\ntasks:\n  t:\n    command: [\"true\"]\n"), // the file's own directory
 				[]byte("import: [\"../\" ]\ntasks:\n  t:\n    command: [\"true\"]\n"),
 				[]byte("import: [\"cfg.yaml\", \".\", \".\"]\ntasks:\n  t:\n    command: [\"true\"]\n"),
+				// the importer has no section of its own; its first import has a JSON / TOML import of its
+				// own (and so comes back with string keys), a later plain YAML import defines the same section
+				[]byte("import: [\"m1.yaml\", \"i2.yaml\"]\n"),
+				[]byte("import: [\"m2.yaml\", \"i3.yaml\", \"i2.yaml\"]\npipelines:\n  entry:\n    - task: y2\n"),
+				[]byte("import: [\"i3.yaml\", \"m1.yaml\", \"i2.yaml\"]\ncontexts:\n  c:\n    env:\n      A: \"1\"\n"),
 				// a directory one of whose files has an import of its own, the other not
 				[]byte("import: [\"sub\"]\ntasks:\n  t:\n    command: [\"true\"]\n"),
 				[]byte("import: [\"i3.yaml\", \"sub\"]\ntasks:\n  t:\n    command: [\"true\"]\n    env:\n      A: \"1\"\n"),
@@ -501,6 +507,8 @@ func CheckC15(env *core.Env, rep *core.Report) *core.Result {
 			_ = ioutil.WriteFile(filepath.Join(dd, "i1.json"), []byte(`{"tasks":{"j1":{"command":["true"],"env":{"A":"1"}}}}`), 0o644)
 			_ = ioutil.WriteFile(filepath.Join(dd, "i1.toml"), []byte("[tasks.m1]\ncommand = [\"true\"]\n[tasks.m1.env]\nA = \"1\"\n"), 0o644)
 			_ = ioutil.WriteFile(filepath.Join(dd, "i2.yaml"), []byte("tasks:\n  y2:\n    command: [\"true\"]\n    env:\n      B: \"2\"\n"), 0o644)
+			_ = ioutil.WriteFile(filepath.Join(dd, "m1.yaml"), []byte("import: [\"i1.json\"]\ntasks:\n  m1:\n    command: [\"true\"]\n    env:\n      M: \"1\"\n"), 0o644)
+			_ = ioutil.WriteFile(filepath.Join(dd, "m2.yaml"), []byte("import: [\"i1.toml\"]\ntasks:\n  m2:\n    command: [\"true\"]\n    env:\n      M: \"2\"\n"), 0o644)
 			_ = os.MkdirAll(filepath.Join(dd, "sub"), 0o755)
 			_ = ioutil.WriteFile(filepath.Join(dd, "sub", "a.yaml"), []byte("import: [\"../i2.yaml\"]\ntasks:\n  sa:\n    command: [\"true\"]\n    env:\n      S: \"1\"\n"), 0o644)
 			_ = ioutil.WriteFile(filepath.Join(dd, "sub", "b.yaml"), []byte("tasks:\n  sb:\n    command: [\"true\"]\n    env:\n      S: \"2\"\n"), 0o644)
@@ -508,7 +516,7 @@ func CheckC15(env *core.Env, rep *core.Report) *core.Result {
 			for _, args := range [][]string{{"-c", f, "list"}, {"-c", f, "validate", f}, {"-c", f, "graph", "entry"}, {"-c", f, "show", "t"}} {
 				res := e.run(dd, "", 10*time.Second, args...)
 				atomic.AddInt64(&byteRuns, 1)
-				if !judge(fmt.Sprintf("bytes:%s:%d", format, i), res, fmt.Sprintf("byte-level variant %d of the %s base document", i, format), map[string]interface{}{"format": format, "variant": i, "document": clipS(string(variants[i]), 600), "stderr": tailS(res.Stderr, 1200)}) {
+				if !judge(fmt.Sprintf("bytes:%s:%08x", format, crc32.ChecksumIEEE(variants[i])), res, fmt.Sprintf("byte-level variant %d of the %s base document", i, format), map[string]interface{}{"format": format, "variant": i, "document": clipS(string(variants[i]), 600), "stderr": tailS(res.Stderr, 1200)}) {
 					break
 				}
 			}
